@@ -15,7 +15,7 @@ A failure is a known finding only if the independent parse of the INPUT bytes pu
   stray-size-bytes-not-truncated : the file (or an ancestor in the history) ends 1-3 bytes after a record boundary
   depslog-reader-ub              : the first record the intended reader rejects is one of UB_CLASSES
 Where the implementation already behaves like `ref` and the model does not (the defect was repaired), that is accepted and counted."""
-import os, random, re, struct, subprocess, resource, time
+import os, random, re, shutil, struct, subprocess, resource, tempfile, time
 from concurrent.futures import ThreadPoolExecutor
 import vlib
 from vlib import unhex
@@ -471,6 +471,13 @@ def run(ctx):
     impl = os.path.join(vlib.build_impl('asan'), 'impl_run')
     model = os.path.join(os.path.dirname(ctx.model), 'depslog_run') if ctx.model else None
     if model and not os.path.exists(model): model = None; ctx.proof['broken'].append('depslog_run was not built')
+    # private copies: the shared build caches are pruned by concurrent checks
+    with tempfile.TemporaryDirectory(prefix='verif-c09-', dir='/dev/shm') as tmp:
+        impl = shutil.copy(impl, os.path.join(tmp, 'impl_run'))
+        if model: model = shutil.copy(model, os.path.join(tmp, 'depslog_run'))
+        return run_in(ctx, impl, model)
+
+def run_in(ctx, impl, model):
     st = St(ctx, impl, model)
     rnd = random.Random(ctx.seed * 1009 + 9)
     q = ctx.quick()
